@@ -105,8 +105,8 @@ Fixpoint probe_loop (probes : list probe_fn) (f : file) : res probe_ok :=
   end.
 
 (** the formats in the order of [formats[]]; SADUMP and /dev/mem are not modelled *)
-Definition probes (repaired : bool) (alim : N) : list probe_fn :=
-  [ fun f => do r <- elf_probe alim f; Ok (PoElf r);
+Definition probes (repaired : bool) (alim flen : N) : list probe_fn :=
+  [ fun f => do r <- elf_probe alim f flen; Ok (PoElf r);
     magic_stub [81;69;86;77];                                                  (* "QEVM" *)
     magic_stub [76;105;98;118];                                                (* "Libv" *)
     magic_stub [76;105;110;117;120;71;117;101;115;116;82;101;99;111;114;100];  (* "LinuxGuestRecord" *)
@@ -126,5 +126,5 @@ Definition open_dump (repaired : bool) (alim : N) (f : file) (flen : N) : res op
   do fm <- flatmap_init alim f flen;
   match fm with
   | Some segs => Ok (OiFlat segs)
-  | None => do p <- probe_loop (probes repaired alim) f; Ok (OiProbe p)
+  | None => do p <- probe_loop (probes repaired alim flen) f; Ok (OiProbe p)
   end.
